@@ -273,6 +273,9 @@ var inclForms = []string{"", "(includeDeprecated: true)", "(includeDeprecated: f
 func run(c *core.Child) {
 	nSchemas := c.Scale(25, 625)
 	defectSeen := map[string]int{}
+	if c.Batch == 0 {
+		handmade(c)
+	}
 	for si := 0; si < nSchemas; si++ {
 		sr := c.RNG(1, uint64(si))
 		o := schemagen.DefaultOptions(sr)
@@ -374,13 +377,14 @@ func (rn *runner) variant(m2 *model.Schema, seed uint64, kind string) {
 
 const lightQuery = `{ __schema { types { name kind possibleTypes { name } interfaces { name } } } }`
 
-// mediumQuery: everything of the description but the deep type references.
+// mediumQuery: what appending types can disturb (type set, kinds, possible types, interfaces, members of
+// every type with deprecation and defaults, directives), without descriptions and deep type references.
 const mediumQuery = `{ __schema { queryType { name } mutationType { name } subscriptionType { name }
-  types { kind name description
-    fields(includeDeprecated: true) { name isDeprecated deprecationReason args { name defaultValue type { kind name ofType { kind name } } } type { kind name ofType { kind name } } }
-    inputFields { name defaultValue type { kind name } }
+  types { kind name
+    fields(includeDeprecated: true) { name isDeprecated args { name defaultValue } type { kind name } }
+    inputFields { name defaultValue }
     interfaces { name } possibleTypes { name kind }
-    enumValues(includeDeprecated: true) { name isDeprecated deprecationReason } }
+    enumValues(includeDeprecated: true) { name isDeprecated } }
   directives { name locations args { name defaultValue } } } }`
 
 func permutations(n int) [][]int {
@@ -414,7 +418,7 @@ func (rn *runner) histories(si int, seed uint64, standalone []string, begin func
 	// the held-back set: a random non-empty subset of the standalone types, plus sometimes a generated extra type
 	var held []string
 	for _, n := range standalone {
-		if hr.Chance(60) {
+		if hr.Chance(50) {
 			held = append(held, n)
 		}
 	}
